@@ -88,6 +88,11 @@ def run(ctx):
                         "scenario %s with %d threads, round %d: a thread observed something else than when running alone: %s" % (r["scenario"], r["n"], r["round"], r.get("diff")),
                         {"scenario": r["scenario"], "threads": r["n"], "seed": r["seed"], "round": r["round"], "module": r.get("src"), "difference": r.get("diff"),
                          "how": "harness/cmd/c05 built with -race: c05-race child -scenario %s -seed %d -n %d -rounds %d" % (r["scenario"], r["seed"], r["n"], r["round"] + 1)})
+        if r.get("changed"):
+            ctx.finding("frozen-shared-value-changed:%s" % r["changed"].split(": ")[1].split(" node")[0],
+                        "scenario values with %d threads, round %d: a shared frozen value is not what it was before the threads ran -- %s" % (r["n"], r["round"], r["changed"]),
+                        {"scenario": "values", "threads": r["n"], "seed": r["seed"], "round": r["round"], "module": r.get("src"), "what": r["changed"],
+                         "how": "c05-race child -scenario values -seed %d -n %d -rounds %d" % (r["seed"], r["n"], r["round"] + 1)})
         for a in r.get("accepted") or []:
             ctx.finding("frozen-value-mutated:%s" % (a.split('"n":"')[2].split('"')[0] if a.count('"n":"') > 1 else "op"),
                         "a mutator applied to a frozen shared value returned no error: %s" % a,
@@ -140,6 +145,13 @@ def run(ctx):
     fp_steps = sum(r["steps"] for r in fps)
     fp_writes = 0
     for r in fps:
+        for dv in r.get("derived") or []:
+            kind = r["desc"]["nodes"][dv["node"]]["kind"]
+            fz = any(w["frozen"] for w in dv["writes"])
+            ctx.finding("derived-value-writes-%s-original:%s:%s" % ("frozen" if fz else "mutable", kind, dv["how"]),
+                        "footprints round %d: computing `%s` from %s node %d%s wrote to the original: %s" % (
+                            r["round"], dv["how"], kind, dv["node"], (" and then " + dv["mut"] + " on the result") if dv.get("mut") else "", dv["writes"]),
+                        {"module": r["src"], "seed": r["seed"], "round": r["round"], "node": dv["node"], "derive": dv["how"], "mutate_derived": dv.get("mut"), "writes": dv["writes"]})
         if r.get("position"):
             ctx.finding("line-table:" + r["position"].split(": ", 1)[-1], "footprints round %d: %s" % (r["round"], r["position"]), {"module": r["src"], "seed": r["seed"], "round": r["round"]})
         for q in r["seqs"] or []:
@@ -267,7 +279,7 @@ Definition f_ok (c : case) : bool :=
         "distribution": dist, "children": [{k: v for k, v in c.items() if k != "report"} for c in children],
         "coq_rounds": len(cases), "coq_events": nev, "model_mismatches": len(bad_model), "footprint_mismatches": len(bad_fp),
         "races_reported": sum(c.get("races", 0) for c in children),
-        "footprint_steps": fp_steps, "footprint_observed_writes": fp_writes, "footprint_sequences_in_coq": len(fcases), "footprint_mismatches": len(bad_w),
+        "derived_value_operations": sum(r.get("nderived", 0) for r in fps), "footprint_steps": fp_steps, "footprint_observed_writes": fp_writes, "footprint_sequences_in_coq": len(fcases), "footprint_mismatches": len(bad_w),
     }
     return ctx.finish(LEVEL, cov, assumptions=[
         "Go memory model, sync.Once, sync/atomic and the race detector are trusted (runtime; not modelled)",
